@@ -33,4 +33,4 @@ TRUSTED = [
 
 
 def main(chk: core.Check, replay: typing.Optional[str] = None) -> int:
-    return campaign.run(chk, 'des', ['codec_tpl'], TRUSTED, replay)
+    return campaign.run(chk, 'des', ['c01', 'codec_tpl'], TRUSTED, replay)
